@@ -111,6 +111,8 @@ PROVED_DETAIL = {
     "C02_parse_render_flag_dates": "DD/MM/YYYY (dayfirst), YY-MM-DD (yearfirst), MM/DD/YY, two-digit years within the window (9 templates)",
     "C02_parse_render_iso_offset4": "YYYY-MM-DD{T, space}{HH:MM, HH:MM:SS}{+HHMM, -HHMM}",
     "C02_parse_render_rfc_offset": "RFC 2822 'Www, DD Mon YYYY HH:MM:SS +HHMM', year >= 100",
+    "C02_parse_render_slash_utc": "YYYY/MM/DD{T, space}{HH:MM, HH:MM:SS} + Z/UTC/GMT", "C02_parse_render_us_utc": "MM/DD/YYYY ... + Z/UTC/GMT",
+    "C02_parse_render_iso_hm_utc": "YYYY-MM-DD{T, space}HH:MM + Z/UTC/GMT", "C02_parse_render_compact_utc": "YYYYMMDD{T, space}HHMM[SS] + Z/UTC/GMT",
     "C02_parse_render_iso_utc": "YYYY-MM-DD{T, space}HH:MM:SS + {Z, ' UTC', ' GMT'} (6 templates) -> UTC, when UTC/GMT are "
                                 "not local zone names",
     "C02_parse_render_iso_offset": "YYYY-MM-DDTHH:MM:SS + {+HH:MM, -HH:MM, +HH, -HH} (2 templates x sign), offsets "
@@ -164,6 +166,15 @@ def theorem_for(t):
         return None
     if D == "DIso" and J in ("JT", "JSpace") and T in ("THM", "THMS") and O == "OHHMM":
         return "C02_parse_render_iso_offset4"
+    if O in ("OZ", "OUTC", "OGMT") and J in ("JT", "JSpace"):
+        if D == "DSlashYMD" and T in ("THM", "THMS"):
+            return "C02_parse_render_slash_utc"
+        if D == "DUS" and T in ("THM", "THMS"):
+            return "C02_parse_render_us_utc"
+        if D == "DIso" and T == "THM":
+            return "C02_parse_render_iso_hm_utc"
+        if D == "DCompact" and T in ("TCompactHM", "TCompactHMS"):
+            return "C02_parse_render_compact_utc"
     if D == "DIso" and J in ("JT", "JSpace") and T == "THMS" and O in ("OZ", "OUTC", "OGMT"):
         return "C02_parse_render_iso_utc"
     if D == "DIso" and J in ("JT", "JSpace") and T in ("THM", "THMS") and O in ("OHH_MM", "OHH"):
@@ -384,6 +395,17 @@ def main():
         "templates_tested_only": "every template whose templates_status is 'tested-only' (spec-differential + model "
                                  "correspondence only)",
         "disagreements": stats,
+        "guard_matcher_correspondence": {
+            "F-C02-padyear": {
+                "theorem": "C02_parse_render_name_date, _mon_dd_yyyy, _month_dd_yyyy, _mon_dd_yyyy_12h, _ctime, _rfc_named "
+                           "(guarded), C02_padyear_refuted",
+                "guard": "100 <= d_y d on exactly the template families whose year token reaches _ymd.append as a number "
+                         "(month-name forms, ctime, RFC 2822); no guard on the other families",
+                "matcher": "m_padded_small_year: rendered year 1..99 AND template in those families (year_as_number) AND the "
+                           "round trip differs ONLY in the year AND the returned year is the rendered year pivoted into the "
+                           "parserinfo-year window (same last two digits, within -50..+49)",
+                "relation": "matcher is contained in the complement of the guard (year < 100 on those families) and is "
+                            "narrowed to the defect's exact effect, so nothing else hides behind it"}},
         "known_findings_hit": verdict.known_hits,
         "known_finding_examples": {k: v for k, v in verdict.known_examples.items()},
     }
